@@ -14,7 +14,7 @@ func init() {
 	register("C01", &propDef{
 		Title:           "Unpack never touches anything outside the destination directory",
 		ConfigSensitive: true,
-		Rules:           []func(*Checker){ruleC01Sinks, ruleC01Ctor, ruleC01Guards, rulePredSound("C01.pred"), ruleC01Walk, ruleC01NoFollow, ruleC01Replace, ruleLinkRestore("C01.linkrestore")},
+		Rules:           []func(*Checker){ruleC01Sinks, ruleC01Ctor, ruleC01Guards, rulePredSound("C01.pred"), ruleC01Walk, ruleC01NoFollow, ruleC01Replace, ruleLinkRestore("C01.linkrestore"), rulePackerWriters("C01.percall")},
 		NotDecided: []string{
 			"whether a lexically accepted link resolves physically inside dst (depends on other links; see C04)",
 			"the bound of the parent walk (it stops before the final component; the final component is covered by C01.nofollow)",
